@@ -145,6 +145,14 @@ func vCheckFiles(s *SPIFFE, fetches int) {
 		wantK, _ := kitpem.EncodePrivateKey(svid.PrivateKey)
 		gotK, _ := os.ReadFile(filepath.Join(vNativeTarget, "key.pem"))
 		zzverif.Assert(string(wantK) == string(gotK), "key_file_is_the_key_of_the_latest_fetch")
+		ents, _ := os.ReadDir(filepath.Dir(vNativeTarget))
+		dirs := 0
+		for _, e := range ents {
+			if e.IsDir() {
+				dirs++
+			}
+		}
+		zzverif.Assert(dirs == 1, "only_current_version_remains")
 		return
 	}
 	files, present, isDir := dir.VerifFSResolve()
